@@ -1,12 +1,117 @@
 /-
-  Driver/OpsPoly.lean — driver ops of the "Poly" unit (stub: serves nothing yet).
-  Interface: return `none` for requests this unit does not serve, `some reply` otherwise.
+  Driver/OpsPoly.lean — driver ops of the "Poly" unit (property C20).
+
+    poly_monoderiv   K<k>          u p                 → row (K+1)
+    poly_monoderivs  K<k>P<p>      u                   → (P+1)x(K+1)
+    poly_lagrange    K<k>          ts (K+1)            → (K+1)x(K+1)
+    poly_basisderivs K<k>N<n>      B (K+1)^2, ts (N)   → (K+1)xN
+    poly_intabs      -             t0 t1 A B C         → value
+    search_f64 / search_int  -         t r…                → idx iters calls chk   (as f64 words)
+    poly_basis / poly_cumbasis  <Basis>:<K>            → (K+1)x(K+1)
+    poly_monint      <K>:<P>                           → (K+1)x(K+1)
+    poly_lgr         <K>                               → K nodes, K weights
+  All at `prec = f64` (the C++ utilities are `double` code).
 -/
 import SmoothModel
 import Driver.Ops
 
+open Scalar
+
 namespace Drv
 
-def runPoly (_op _grp _prec : String) (_args : Array String) : Option String := none
+namespace PolyOps
+
+def hex (x : Float) : String := Bits.toHex x
+def reply (xs : List Float) : String := " ".intercalate (xs.map hex)
+
+/-- "K7" → 7, "K7P2" → (7,2) with the given letters -/
+def parse1 (g : String) (c : Char) : Option Nat :=
+  match g.toList with
+  | c' :: rest => if c' = c then (String.ofList rest).toNat? else none
+  | [] => none
+
+def parse2 (g : String) (c1 c2 : Char) : Option (Nat × Nat) :=
+  match g.toList with
+  | c' :: rest =>
+    if c' = c1 then
+      match (String.ofList rest).splitOn (String.singleton c2) with
+      | [a, b] => do let x ← a.toNat?; let y ← b.toNat?; pure (x, y)
+      | _ => none
+    else none
+  | [] => none
+
+def parseColon (g : String) : Option (String × Nat) :=
+  match g.splitOn ":" with
+  | [a, b] => do let y ← b.toNat?; pure (a, y)
+  | _ => none
+
+def thr : Float := 1e-9
+
+/-- Float → Nat for small non-negative integer-valued words -/
+def toNat (x : Float) : Nat := x.toUInt64.toNat
+
+def run (op grp : String) (x : Array Float) : Option String :=
+  match op with
+  | "poly_monoderiv" => some <|
+    match parse1 grp 'K' with
+    | some K => if x.size = 2 then reply (Poly.monoDeriv K x[0]! (toNat x[1]!)) else "ERR arity"
+    | none => "ERR grp"
+  | "poly_monoderivs" => some <|
+    match parse2 grp 'K' 'P' with
+    | some (K, P) => if x.size = 1 then reply (Poly.flatten (Poly.monoDerivs K P x[0]!)) else "ERR arity"
+    | none => "ERR grp"
+  | "poly_lagrange" => some <|
+    match parse1 grp 'K' with
+    | some K => if x.size = K + 1 then reply (Poly.flatten (Poly.lagrange K x.toList)) else "ERR arity"
+    | none => "ERR grp"
+  | "poly_basisderivs" => some <|
+    match parse2 grp 'K' 'N' with
+    | some (K, N) =>
+      if x.size = (K+1)*(K+1) + N then
+        let B : Poly.Tab Float := Poly.ofFn (K+1) (K+1) fun i j => x[i*(K+1)+j]!
+        let ts : List Float := (List.range N).map fun j => x[(K+1)*(K+1)+j]!
+        reply (Poly.flatten (Poly.basisDerivatives K B ts))
+      else "ERR arity"
+    | none => "ERR grp"
+  | "poly_intabs" => some <|
+    if x.size = 5 then reply [Poly.integrateAbs thr x[0]! x[1]! x[2]! x[3]! x[4]!] else "ERR arity"
+  | "search_f64" | "search_int" => some <|
+    if x.size = 0 then "ERR arity"
+    else
+      let o := Search.searchInterp (x.extract 1 x.size) x[0]!
+      reply [Float.ofNat o.idx, Float.ofNat o.iters, Float.ofNat o.calls, Float.ofNat o.chk]
+  | "poly_basis" => some <|
+    match parseColon grp with
+    | some (b, K) =>
+      match Poly.Basis.ofString? b with
+      | some bb => reply (Poly.flatten (Poly.basis (α := Float) bb K))
+      | none => "ERR basis"
+    | none => "ERR grp"
+  | "poly_cumbasis" => some <|
+    match parseColon grp with
+    | some (b, K) =>
+      match Poly.Basis.ofString? b with
+      | some bb => reply (Poly.flatten (Poly.cumulativeBasis (α := Float) bb K))
+      | none => "ERR basis"
+    | none => "ERR grp"
+  | "poly_monint" => some <|
+    match grp.splitOn ":" with
+    | [a, b] =>
+      match a.toNat?, b.toNat? with
+      | some K, some P => reply (Poly.flatten (Poly.monomialIntegral (α := Float) K P))
+      | _, _ => "ERR grp"
+    | _ => "ERR grp"
+  | "poly_lgr" => some <|
+    match grp.toNat? with
+    | some K => let r := Poly.lgrNodes (α := Float) K; reply (r.1 ++ r.2)
+    | none => "ERR grp"
+  | _ => none
+
+end PolyOps
+
+def runPoly (op grp prec : String) (args : Array String) : Option String :=
+  if op.startsWith "poly_" || op == "search_f64" || op == "search_int" then
+    if prec == "f64" then PolyOps.run op grp (args.map Bits.ofHex) else some "ERR bad-prec"
+  else none
 
 end Drv
